@@ -8,6 +8,7 @@
 import json
 import os
 import time
+import zlib
 
 import vlib
 
@@ -19,6 +20,8 @@ ATOMIC_REG = True
 FIX_INTENT = True
 # FixShut = no connection is registered once the hub is shut down
 FIX_SHUT = True
+# FixCancel = CancelPairingWithSKI ends a connection whose handshake is past the hello phase
+FIX_CANCEL = True
 
 
 def collect(prop, tier):
@@ -31,53 +34,117 @@ def collect(prop, tier):
         binp = vlib.build_harness(sc, "hub2")
         b = lambda x: "TRUE" if x else "FALSE"
         with open(os.path.join(sd, "Hub2_M.cfg"), "w") as f:
-            f.write("SPECIFICATION Spec\nCONSTANTS MaxC = %d\n MaxDisturb = %d\n AtomicReg = %s\n FixStale = %s\n FixIntent = %s\n FixShut = %s\n Rich = TRUE\n EmitMode = \"none\"\n SimDepth = 0\n"
-                    "INVARIANT P_C05\nINVARIANT NoOrphan\nINVARIANT P_C10_trust\nINVARIANT P_C10_shut\nCHECK_DEADLOCK FALSE\n"
-                    % (3 if q else 4, 2, b(ATOMIC_REG), b(FIX_STALE), b(FIX_INTENT), b(FIX_SHUT)))
-        m = vlib.tlc(sd, "Hub2", cfg="Hub2_M.cfg", workers=8, timeout=3000)
-        if m["error"] and not m["violated"]:
-            raise vlib.Infra("TLC error in Hub2: %s\n%s" % (m["error"], m["tail"]))
+            f.write("SPECIFICATION Spec\nCONSTANTS MaxC = %d\n MaxDisturb = %d\n AtomicReg = %s\n FixStale = %s\n FixIntent = %s\n FixShut = %s\n FixCancel = %s\n Rich = TRUE\n Rich2 = TRUE\n Warm = FALSE\n IdWrong = {}\n EmitMode = \"none\"\n SimDepth = 0\n"
+                    "INVARIANT P_C05\nINVARIANT NoOrphan\nINVARIANT P_C10_trust\nINVARIANT P_C10_shut\nINVARIANT P_C09_pin\nCHECK_DEADLOCK FALSE\n"
+                    % (3 if q else 4, 2, b(ATOMIC_REG), b(FIX_STALE), b(FIX_INTENT), b(FIX_SHUT), b(FIX_CANCEL)))
         model_note = None
-        if m["violated"]:
-            model_note = "stage M: Hub2 (AtomicReg=%s FixStale=%s) violates %s on the model" % (ATOMIC_REG, FIX_STALE, m["violated"])
-            print(model_note)
-        else:
+        if prop in ("C05", "C09", "C10"):
+            m = vlib.tlc(sd, "Hub2", cfg="Hub2_M.cfg", workers=8, timeout=3000)
+            if m["error"] and not m["violated"]:
+                raise vlib.Infra("TLC error in Hub2: %s\n%s" % (m["error"], m["tail"]))
+            if m["violated"]:
+                # the specification of the repaired design violates a formula: a modelling error or a regression of the
+                # specification, never a verdict about the code
+                raise vlib.Infra("stage M: Hub2 violates %s on the model (not a verdict about the code)" % m["violated"])
             print("stage M: Hub2, %d states generated, %d distinct" % (m["states"], m["distinct"]))
+            if prop == "C09":
+                # the same with a wrong stored SHIP id at one hub
+                with open(os.path.join(sd, "Hub2_M.cfg")) as f:
+                    cfg = f.read().replace("IdWrong = {}", 'IdWrong = {"A"}').replace("MaxDisturb = 2", "MaxDisturb = 1")
+                with open(os.path.join(sd, "Hub2_MW.cfg"), "w") as f:
+                    f.write(cfg)
+                mw = vlib.tlc(sd, "Hub2", cfg="Hub2_MW.cfg", workers=8, timeout=3000)
+                if mw["error"] or mw["violated"]:
+                    raise vlib.Infra("stage M: Hub2 with a wrong stored SHIP id: %s" % (mw["violated"] or mw["error"]))
+                m["states"] += mw["states"]
+                m["distinct"] += mw["distinct"]
+        else:
+            # for the connection-level properties the two-hub runs are a source of real histories; their model is ShipSme
+            m = dict(states=0, distinct=0)
         depth = 40
         outs = []
-        for rich in ("FALSE", "TRUE"):
-            with open(os.path.join(sd, "Hub2_G%s.cfg" % rich), "w") as f:
-                f.write("SPECIFICATION Spec\nCONSTANTS MaxC = 6\n MaxDisturb = 3\n AtomicReg = FALSE\n FixStale = FALSE\n FixIntent = FALSE\n FixShut = FALSE\n Rich = %s\n EmitMode = \"final\"\n SimDepth = %d\n"
-                        "ACTION_CONSTRAINT Emit\nCHECK_DEADLOCK FALSE\n" % (rich, depth))
-            g = vlib.tlc(sd, "Hub2", cfg="Hub2_G%s.cfg" % rich, workers=1, timeout=900, simulate="num=%d" % (300 if q else 3000), depth=depth,
-                         tlc_seed=seed + (7 if rich == "TRUE" else 0))
+        # families of environment scripts: plain, rich (Unregister / Disappear / Restart / Shutdown), rich2 (+ CancelPairing,
+        # SetAutoAccept), and two with a wrong stored SHIP id at one hub (C09)
+        fams = [("plain", "FALSE", "FALSE", "{}"), ("rich", "TRUE", "FALSE", "{}"), ("rich2", "TRUE", "TRUE", "{}"),
+                ("warm", "TRUE", "TRUE", "{}"), ("wrongA", "FALSE", "TRUE", '{"A"}'), ("wrongB", "FALSE", "TRUE", '{"B"}')]
+        for fi, (fam, rich, rich2, wrong) in enumerate(fams):
+            with open(os.path.join(sd, "Hub2_G%s.cfg" % fam), "w") as f:
+                f.write("SPECIFICATION Spec\nCONSTANTS MaxC = 6\n MaxDisturb = 3\n AtomicReg = FALSE\n FixStale = FALSE\n FixIntent = FALSE\n FixShut = FALSE\n FixCancel = FALSE\n Rich = %s\n Rich2 = %s\n Warm = %s\n IdWrong = %s\n EmitMode = \"final\"\n SimDepth = %d\n"
+                        "ACTION_CONSTRAINT Emit\nCHECK_DEADLOCK FALSE\n" % (rich, rich2, "TRUE" if fam == "warm" else "FALSE", wrong, depth))
+            g = vlib.tlc(sd, "Hub2", cfg="Hub2_G%s.cfg" % fam, workers=1, timeout=900, simulate="num=%d" % (300 if q else 3000), depth=depth,
+                         tlc_seed=seed + 7 * fi)
             if g["error"]:
                 raise vlib.Infra("TLC error generating from Hub2: %s\n%s" % (g["error"], g["tail"]))
-            outs.append(list(vlib.tlc_lines(g["out_path"], "TEST")))
-        scripts, seen = [], set()
-        for sc_ops in outs[0] + outs[1]:
-            ops = []
-            for o in sc_ops:
-                if o["quiet"] and ops:
-                    ops.append(dict(op="Settle", h=""))
-                ops.append(dict(op=o["op"], h=o["h"]))
-            key = json.dumps(ops)
-            if key in seen or not ops:
-                continue
-            seen.add(key)
-            scripts.append(dict(high="A", ops=ops, burst=1 + 2 * (len(scripts) % 2)))
-        # keep maximal scripts only (every environment step prints the script so far)
-        keys = sorted(json.dumps(s["ops"]) for s in scripts)
-        bykey = {json.dumps(s["ops"]): s for s in scripts}
-        keep = []
-        for i, k in enumerate(keys):
-            if i + 1 < len(keys) and keys[i + 1].startswith(k[:-1] + ","):
-                continue
-            keep.append(bykey[k])
-        scripts = [s for s in keep if len([o for o in s["ops"] if o["op"] != "Settle"]) >= 4]
-        scripts.sort(key=lambda s: (hash(json.dumps(s["ops"])) + seed) % 1000003)
-        limit = 48 if q else 1200
-        scripts = scripts[:limit]
+            outs.append((fam, list(vlib.tlc_lines(g["out_path"], "TEST"))))
+        limit = 60 if q else 1500
+        share = {"plain": 0.2, "rich": 0.2, "rich2": 0.15, "warm": 0.25, "wrongA": 0.1, "wrongB": 0.1}
+        scripts = []
+        for fam, recs in outs:
+            fs, seen = [], set()
+            for sc_ops in recs:
+                ops = []
+                for o in sc_ops:
+                    if o["quiet"] and (ops or fam == "warm"):
+                        ops.append(dict(op="Settle", h=""))
+                    ops.append(dict(op=o["op"], h=o["h"], st=o.get("st", "")))
+                key = json.dumps(ops)
+                if key in seen or not ops:
+                    continue
+                seen.add(key)
+                if fam == "warm":
+                    # the model's warm start spelled out: both register, both come into sight (order rotates), the pair connects
+                    k = len(fs) % 4
+                    pre = [dict(op="Register", h="AB"[k % 2]), dict(op="Register", h="BA"[k % 2]), dict(op="Appear", h="AB"[k // 2]), dict(op="Appear", h="BA"[k // 2])]
+                    ops = pre + ops
+                fs.append(dict(high="A", ops=ops, fam=fam))
+            # keep maximal scripts only (every environment step prints the script so far)
+            keys = sorted(json.dumps(s["ops"]) for s in fs)
+            bykey = {json.dumps(s["ops"]): s for s in fs}
+            keep = []
+            for i, k in enumerate(keys):
+                if i + 1 < len(keys) and keys[i + 1].startswith(k[:-1] + ","):
+                    continue
+                keep.append(bykey[k])
+            fs = [s for s in keep if len([o for o in s["ops"] if o["op"] != "Settle"]) >= (3 if fam.startswith("wrong") else 6 if fam == "warm" else 4)]
+            def dial_at(s):
+                # position after which some hub has registered its peer and sees it (it will set up a connection); -1 if never
+                reg, app = set(), set()
+                for i, o in enumerate(s["ops"]):
+                    if o["op"] == "Register":
+                        reg.add(o["h"])
+                    elif o["op"] == "Appear":
+                        app.add(o["h"])
+                    if reg & app:
+                        return i
+                return -1
+
+            def score(s):
+                # disturbances that meet a connection (being set up or established) are what the scripts are for
+                d = dial_at(s)
+                if d < 0:
+                    return 0
+                return 1 + len({o["op"] for o in s["ops"][d + 1:] if o["op"] in ("Cancel", "Unregister", "Disconnect", "Cut", "Restart", "Shutdown", "AutoOff", "AutoOn")})
+            # deterministic in the seed: half of a family's scripts are those with the most kinds of disturbance after a
+            # connection was set up, the rest are drawn without looking (one in five sets up no connection at all)
+            fs.sort(key=lambda s: (zlib.crc32(json.dumps(s["ops"]).encode()) + seed * 7919) % 1000003)
+            n = max(2, int(limit * share[fam]))
+            best = sorted(fs, key=lambda s: -score(s))[:n // 2]
+            rest = [s for s in fs if s not in best]
+            with_dial = [s for s in rest if dial_at(s) >= 0]
+            without = [s for s in rest if dial_at(s) < 0]
+            fs = (best + with_dial[:n - n // 2 - n // 5] + without[:n // 5] + with_dial[n - n // 2 - n // 5:])[:n]
+            for j, s in enumerate(fs):
+                s["burst"] = 1 + 2 * (j % 2)
+                if fam == "wrongA":
+                    s["ids"] = dict(A="wrong", B=("none", "right")[j % 2])
+                elif fam == "wrongB":
+                    s["ids"] = dict(A=("none", "right")[j % 2], B="wrong")
+                else:
+                    s["ids"] = dict(A=("none", "right", "none")[j % 3], B=("none", "none", "right")[j % 3])
+                if fam.startswith("wrong"):
+                    # the hubs re-dial for ever (every attempt ends in the access phase): give them some time, then stop both
+                    s["ops"] = s["ops"] + [dict(op="Sleep", h="", ms=1500), dict(op="Shutdown", h="A"), dict(op="Shutdown", h="B")]
+            scripts += fs
         for i, s in enumerate(scripts):
             s["id"] = i
         sp = os.path.join(sc, "scripts.ndjson")
@@ -89,9 +156,10 @@ def collect(prop, tier):
             raise vlib.Infra("no scripts generated")
         obs = os.path.join(sc, "obs.ndjson")
         # two passes: the dial back-off scaled to 2 % (dials rarely collide) and to zero (both hubs dial at once: double connections)
-        half = len(scripts) // 2
+        s20 = [s for i, s in enumerate(scripts) if s["fam"].startswith("wrong") or i % 2 == 0]
+        s0 = [s for i, s in enumerate(scripts) if not (s["fam"].startswith("wrong") or i % 2 == 0)]
         parts = []
-        for tag, scale, part in (("s20", "20", scripts[:half]), ("s0", "0", scripts[half:])):
+        for tag, scale, part in (("s20", "20", s20), ("s0", "0", s0)):
             if not part:
                 continue
             pp = os.path.join(sc, "scripts-%s.ndjson" % tag)
@@ -124,9 +192,10 @@ def collect(prop, tier):
         for mon in vlib.tlc_lines(r["out_path"], "MON"):
             nmon += 1
             if mon["key"][0] != prop:
-                others[vlib.key_str(mon["key"][:2])] = mon["id"]
+                if not vlib.classify(mon["key"][0], mon["key"][1:], mon.get("kf", []), known):
+                    others[vlib.key_str(mon["key"][:2])] = mon["id"]
                 continue
-            kf = vlib.classify(prop, mon["key"][1:], [], known)
+            kf = vlib.classify(prop, mon["key"][1:], mon.get("kf", []), known)
             if kf:
                 known_hits[kf["key"]] = kf["text"]
             elif len(violations) < 15:
